@@ -154,10 +154,27 @@ func runC12(c *Ctx) error {
 		return err
 	}
 	// canonical datagrams
+	// the datagram of a message value comes from the MODEL's encoder (proved equal to the independent Spec encoder on
+	// the domain), not from the implementation under test: a defect of the implementation's encoder must not remove the
+	// very inputs that would show it
+	canon := func(op string, x *SX) ([]byte, error) {
+		o, err := c.M.Ask("(" + op + " " + x.String() + ")")
+		if err != nil {
+			return nil, err
+		}
+		if b := okBody(o); b != nil {
+			return b[0].B0(), nil
+		}
+		return nil, nil
+	}
 	for i, n := 0, c.N(500, 20000); i < n; i++ {
 		m := genMessage(rng)
-		if b := okBody(implEncode(m)); b != nil {
-			if err := evalC12(c, "decode_encode", b[0].B0(), true); err != nil {
+		w, err := canon("encode", m)
+		if err != nil {
+			return err
+		}
+		if w != nil {
+			if err := evalC12(c, "decode_encode", w, true); err != nil {
 				return err
 			}
 		}
@@ -173,11 +190,21 @@ func runC12(c *Ctx) error {
 		var w []byte
 		op := "decode_encode"
 		if rng.Chance(2, 3) {
-			b := okBody(implEncode(genMessage(rng)))
-			if b == nil {
-				continue
+			if i%4 == 0 {
+				var err error
+				if w, err = canon("encode", genMessage(rng)); err != nil {
+					return err
+				}
+				if w == nil {
+					continue
+				}
+			} else {
+				b := okBody(implEncode(genMessage(rng)))
+				if b == nil {
+					continue
+				}
+				w = b[0].B0()
 			}
-			w = b[0].B0()
 		} else {
 			b := okBody(implEapMarshal(genEapAny(rng)))
 			if b == nil {
